@@ -228,6 +228,7 @@ fn all_tables(cx: &Cx, rep: &mut Report) -> (CmpTables, Option<GateModel>) {
 
 pub fn c05(cx: &Cx) -> i32 {
     let mut rep = cx.report("C05");
+    crate::misc::parse_single_rule(cx, &mut rep);
     let (ct, g) = all_tables(cx, &mut rep);
     // accept / reject per trait, all attributes recognised
     for t in 0..5 { table_vs_reference(cx, &mut rep, &ct, t, "", Some(&["DM-accept-reject"])); }
